@@ -14,7 +14,7 @@ from checks.framework import run_check
 from irsym import api, build, envstubs, sym as S, solver as SV, par
 from checks.c10 import valgrind_replay
 
-def parse_population(d, i, dp, ip):
+def parse_population(d, i, dp, ip, contact=1):
     nc = i[ip]; ip += 1
     cells = []
     for c in range(nc):
@@ -24,7 +24,10 @@ def parse_population(d, i, dp, ip):
         for n in range(nn):
             used = i[ip]; ip += 1
             pos = d[dp:dp + 3]; dp += 3
-            cp = tuple(i[ip:ip + 3]); ip += 3
+            if contact == 1:
+                cp = tuple(i[ip:ip + 3]); ip += 3
+            else:
+                cp = (0, -1, -1)        # only contact model 1 stores (cell, node) couplings in the nodes
             nodes.append({'used': used, 'pos': pos, 'coupled': cp})
         faces = []
         for f in range(nf):
@@ -64,6 +67,9 @@ def main(chk):
     ir = build.build_ir(['h_sim.cpp'])
     nat = build.build_native(['h_sim.cpp'])
     native = api.Native(nat)
+    ir0 = build.build_ir(['h_sim.cpp'], contact=0)
+    nat0 = build.build_native(['h_sim.cpp'], contact=0)
+    native0 = api.Native(nat0)
     chk.trusted += ['clang lowering validated per run (whole iterations, bitwise)', 'irsym incl. OpenMP runtime model (sequential semantics) and std::string / filesystem / writer stubs',
                     'cell_divider::divide_cell replaced by its contract (two fresh cells of the mother\'s class or none); the real divide_cell is the subject of C09']
     chk.assumptions += ['tissue geometry concrete (tetrahedra / octahedra in a row so that neighbouring epithelial cells couple)', 'removals follow an enumerated schedule (a chosen cell falls below its minimum volume in a chosen iteration); divisions are decided by symbolic division volumes']
@@ -83,6 +89,15 @@ def main(chk):
                 scenarios.append({'name': '%d epithelial cells, cell %d removed in iteration %d' % (nc, victim, it_), 'nc': nc, 'nft': 2, 'sched': sched, 'sym_div': False})
     scenarios.append({'name': '3 epithelial cells, no event (control)', 'nc': 3, 'nft': 2, 'sched': [[0] * 3 for _ in range(nsteps)], 'sym_div': False})
     scenarios.append({'name': '3 epithelial cells with a single face type, no event', 'nc': 3, 'nft': 1, 'sched': [[0] * 3 for _ in range(nsteps)], 'sym_div': False})
+    # face-type indices written by the polarisation rules of epithelial cells (0 apical, 1 lateral, 2 basal) against the number of face types of the cell type
+    scenarios.append({'name': 'epithelial tetrahedron with two face types overlapping an ECM octahedron, no event', 'nc': 2, 'nft': 2, 'sched': [[0] * 2 for _ in range(nsteps)], 'sym_div': False,
+                      'kinds': [0, 1], 'classes': [0, 1], 'gap': 0.3})
+    scenarios.append({'name': 'contact model 0: epithelial tetrahedron with two face types overlapping an ECM octahedron, no event', 'nc': 2, 'nft': 2, 'sched': [[0] * 2 for _ in range(nsteps)], 'sym_div': False,
+                      'kinds': [0, 1], 'classes': [0, 1], 'gap': 0.3, 'contact': 0})
+    scenarios.append({'name': 'contact model 0: epithelial tetrahedron with three face types overlapping an ECM octahedron, no event', 'nc': 2, 'nft': 3, 'sched': [[0] * 2 for _ in range(nsteps)], 'sym_div': False,
+                      'kinds': [0, 1], 'classes': [0, 1], 'gap': 0.3, 'contact': 0})
+    scenarios.append({'name': 'epithelial tetrahedron with three face types overlapping an ECM octahedron, no event', 'nc': 2, 'nft': 3, 'sched': [[0] * 2 for _ in range(nsteps)], 'sym_div': False,
+                      'kinds': [0, 1], 'classes': [0, 1], 'gap': 0.3})
     scenarios.append({'name': '2 epithelial cells, symbolic division volumes (every subset of divisions in iteration 0)', 'nc': 2, 'nft': 2, 'sched': [[0] * 2 for _ in range(nsteps)], 'sym_div': True})
     if not quick:
         scenarios.append({'name': '3 epithelial cells, symbolic division volumes, cell 1 removed in iteration 0', 'nc': 3, 'nft': 2, 'sched': [[0, 1, 0]] + [[0] * 3] * (nsteps - 1), 'sym_div': True})
@@ -105,7 +120,7 @@ def main(chk):
     def work(si):
         sce = scenarios[si]
         nc = sce['nc']
-        din, kinds, classes, nfts = tissue(nc, sce['nft'])
+        din, kinds, classes, nfts = tissue(nc, sce['nft'], sce.get('kinds'), sce.get('classes'), sce.get('gap', 1.15))
         iin = [nc, nsteps] + kinds + classes + nfts + [v for row in sce['sched'] for v in row]
         out = {'paths': []}
         if sce['sym_div']:
@@ -115,7 +130,7 @@ def main(chk):
             ctl, res = s2.explore('h_sim', din, iin, assumptions=[S.cmp('gt', v, S.ZERO) for v in dv], zctx=z2, max_paths=40, branch_timeout_ms=3000)
             out['exhausted'] = ctl.exhausted
         else:
-            s2 = api.Session(ir, mode='ieee', overrides=ov, setup=setup)
+            s2 = api.Session(ir0 if sce.get('contact') == 0 else ir, mode='ieee', overrides=ov, setup=setup)
             r = s2.run('h_sim', din, iin)
             res = [([], [], r)]
             out['exhausted'] = True
@@ -143,11 +158,11 @@ def main(chk):
                 dp = ip = 0
                 step = 0
                 seen = set()
-                nft_of_type = {0: sce['nft']}
+                nft_of_type = {t: sce['nft'] for t in range(5)}
                 try:
                     prev_n = None
                     while ip < len(r.iout):
-                        cells, dp, ip = parse_population(r.dout, r.iout, dp, ip)
+                        cells, dp, ip = parse_population(r.dout, r.iout, dp, ip, sce.get('contact', 1))
                         # couplings written by the contact phase of an iteration whose removal step dropped a cell are dangling until the
                         # next contact phase resets them and are never dereferenced in between (the memory monitors watch every dereference):
                         # they are examined at the dump only if the population did not shrink in that iteration
@@ -189,13 +204,15 @@ def main(chk):
             if not probs and not reps:
                 chk.ob(nm, 'proved', True, 0, sample={'obligation': nm, 'status': 'oracle and memory monitors found nothing'} if len(chk.samples) < 6 else None)
                 continue
-            rep = replay(native, nat, item, sce)
+            rep = replay(native0, nat0, item, sce) if sce.get('contact') == 0 else replay(native, nat, item, sce)
             what = '; '.join(['iteration %d: %s' % p for p in probs[:3]] + ['%s: %s (%s)' % (k, m, (w or '')[:120]) for (k, m, w) in reps[:2]])
             chk.ob(nm, 'violated' if rep['reproduced'] else 'unknown', True, 0, detail={'problems': probs[:5], 'memory_reports': reps[:3], 'replay': rep})
             if rep['reproduced']:
-                kind = 'stale-list-index' if any('list position' in p[1] for p in probs) else ('face-type-index' if any('face-type index' in p[1] for p in probs) else ('memory' if reps else 'cross-reference'))
+                ft_native = 'face-type index' in (rep.get('what') or '')
+                kind = 'stale-list-index' if any('list position' in p[1] for p in probs) else ('face-type-index' if (ft_native or any('face-type index' in p[1] for p in probs)) else ('memory' if reps else 'cross-reference'))
+                if kind == 'face-type-index': kind = 'face-type-index/epithelial face labelled basal (2) or lateral (1) although its cell type has fewer face types'
                 chk.violation('C08/%s' % kind, '%s: %s' % (tag, what), rep)
-    native.close()
+    native.close(); native0.close()
     chk.finish(level='other', explanation=(
         'The real solver (constructor, run_iteration x3: division pass with the divide_cell contract, refinement, contact model 1, polarisation, internal forces, integrator, removal) is executed '
         'by irsym on row tissues of 2-4 epithelial tetrahedra. Removal histories are enumerated; which cells divide is decided by z3 through symbolic division volumes. After each iteration an oracle '
@@ -212,10 +229,10 @@ def replay(native, nat, item, sce):
         try:
             prev_n = None
             while ip < len(q['i']):
-                cells, dp, ip = parse_population(q['d'], q['i'], dp, ip)
+                cells, dp, ip = parse_population(q['d'], q['i'], dp, ip, sce.get('contact', 1))
                 shrunk = prev_n is not None and len(cells) < prev_n
                 prev_n = len(cells)
-                probs += ['iteration %d: %s' % (step, p) for p in population_problems(cells, {0: sce['nft']}, set(), step, check_couplings=not shrunk)]
+                probs += ['iteration %d: %s' % (step, p) for p in population_problems(cells, {t: sce['nft'] for t in range(5)}, set(), step, check_couplings=not shrunk)]
                 step += 1
         except Exception as e:
             probs.append('native dump unreadable: %r' % (e,))
